@@ -117,19 +117,28 @@ def run(ctx, report):
         if got is not None and not probs:
             # the nullable-types option is a READ option: with pandas_nulls=False integers / booleans with missing values land in
             # float / object arrays, but every cell must still hold the value written (or be missing where it was missing)
-            try:
-                got2 = fastparquet.ParquetFile(path, pandas_nulls=False).to_pandas()
-                for c in got.columns:
-                    if c not in got2.columns or len(got2[c]) != len(got[c]):
-                        probs.append(f"pandas_nulls=False: column {c} missing or of another length")
-                        break
-                    a, b = loose_cells(got[c]), loose_cells(got2[c])
-                    bad = [i for i, (x, y) in enumerate(zip(a, b)) if x != y]
-                    if bad:
-                        probs.append(f"pandas_nulls=False: column '{c}' row {bad[0]}: {b[bad[0]]!r} read, the default read gives {a[bad[0]]!r} ({len(bad)} rows differ)")
-                        break
-            except Exception as e:  # noqa
-                probs.append("read with pandas_nulls=False raised after a successful write: " + canon_err(e) + " " + str(e)[:100])
+            # ... and `categories=[]` (dictionary-encoded columns de-referenced to plain values) is a read option, too
+            for vname, pkw, rkw in (("pandas_nulls=False", {"pandas_nulls": False}, {}), ("categories=[]", {}, {"categories": []})):
+                if vname == "categories=[]" and not any(isinstance(df[c].dtype, pd.CategoricalDtype) for c in df.columns):
+                    continue
+                try:
+                    got2 = fastparquet.ParquetFile(path, **pkw).to_pandas(**rkw)
+                    for c in got.columns:
+                        if c not in got2.columns or len(got2[c]) != len(got[c]):
+                            probs.append(f"{vname}: column {c} missing or of another length")
+                            break
+                        a, b = loose_cells(got[c]), loose_cells(got2[c])
+                        bad = [i for i, (x, y) in enumerate(zip(a, b)) if x != y]
+                        if bad:
+                            probs.append(f"{vname}: column '{c}' row {bad[0]}: {b[bad[0]]!r} read, the default read gives {a[bad[0]]!r} ({len(bad)} rows differ)")
+                            break
+                    report.count("read-variant:" + vname)
+                except Exception as e:  # noqa
+                    if vname == "categories=[]":
+                        # outside C01's quantifier (a read option): a refusal is counted, only silently different data is a failure
+                        report.count("read-variant-refused:" + vname + ":" + canon_err(e))
+                    else:
+                        probs.append(f"read with {vname} raised after a successful write: " + canon_err(e) + " " + str(e)[:100])
         if probs:
             is_i96 = lambda p: case["opts"].get("times") == "int96" and p.startswith("dtype of") and "datetime64" in p and p.endswith("datetime64[ns]")  # noqa: E731
             is_ec = lambda p: len(df) == 0 and p.startswith("category labels")  # noqa: E731
